@@ -26,6 +26,7 @@ const ADDRS: [&str; 3] = [
     "mkHS9ne12qx9pS9VojpwU5xtRd4T7X7ZUt",
 ];
 const BAD_ADDR: &str = "not-an-address";
+const NEVER_ADDED: &str = "bcrt1qcr8te4kr609gcawutmrza0j4xv80jy8zeqchgx";
 
 struct Sys {
     world: World,
@@ -204,7 +205,17 @@ fn run(args: &Args) {
                 13 => {
                     let k = rng.below(3) as usize;
                     let with_bad = rng.chance(1, 3);
-                    let list: Vec<String> = if with_bad { vec![ADDRS[k].to_string(), BAD_ADDR.to_string()] } else { vec![ADDRS[k].to_string()] };
+                    // a valid address that is never added: removing it is a no-op, wherever it
+                    // stands in the request
+                    let list: Vec<String> = if with_bad {
+                        vec![ADDRS[k].to_string(), BAD_ADDR.to_string()]
+                    } else {
+                        match rng.below(3) {
+                            0 => vec![ADDRS[k].to_string(), NEVER_ADDED.to_string()],
+                            1 => vec![NEVER_ADDED.to_string(), ADDRS[k].to_string()],
+                            _ => vec![ADDRS[k].to_string()],
+                        }
+                    };
                     let r = catch_unwind(AssertUnwindSafe(|| node.remove_allowlist(&list).is_ok()));
                     (format!("RemoveAllow {} {}", k, coq_bool(!with_bad)), json!(["remove_allowlist", list]), r.map_err(|_| ()))
                 }
